@@ -81,7 +81,9 @@ def run(pid):
     thorough = vlib.tier() == "thorough"
     bitsset = spec["bitsset"]
     if pid == "C09" and thorough:
-        bitsset = tuple(range(8, 21)) + (24,)
+        # (a real index has 2^bits buckets and every Close writes them out: 24 bits = 128 MiB per reopen, so the large sizes
+        # get a batch of their own, below; the first thorough run with 8..24 everywhere did not finish in an hour)
+        bitsset = tuple(range(8, 19)) + (20,)
     total = unattributed = 0
     # 0. (C04) the byte-accurate mechanism model with both collectors: Store.tla model-checked (Refines at every state, so a
     #    cycle never changes the contents), every transition executed on the real store (verdict: StoreTrace), the model's
@@ -136,6 +138,8 @@ def run(pid):
     rep.cov["samples"] = [scens[len(scens) // 2]["ops"]]
     # 2. TLC -simulate walks under a configuration sweep
     nsim, depth = (20000, 80) if thorough else (1200, 50)
+    if pid == "C09" and thorough:
+        nsim, depth = 6000, 60
     consts = seqeng.kv_consts(6, spec["weights"], depth, deadlines=spec["deadlines"], lowuses=spec["lowuses"], bitsset=bitsset)
     hs2, r2 = seqeng.gen_histories(consts, "sim", num=nsim, seed=vlib.seed())
     rep.cov["transitions"] += r2.states
@@ -167,6 +171,21 @@ def run(pid):
         unattributed += len(other3)
         rep.cov["evaluations"] += n3
         total += len(sc3)
+    # 2c. (C09, thorough) the large bit sizes: short walks between 8, 16, 21..24
+    if pid == "C09" and thorough:
+        consts = seqeng.kv_consts(6, ["put"] * 4 + ["rem", "flush", "rebits", "rebits", "get"], 14, bitsset=(8, 16, 21, 22, 23, 24))
+        hs4, r4 = seqeng.gen_histories(consts, "sim", num=160, seed=vlib.seed() + 7)
+        cfg4 = seqeng.sweep(rng, 8, primaries=("mh", "cid"), limits=(70, 1 << 30), imm=(False,))
+        for c in cfg4:
+            c["cmp"], c["probe"] = False, "end"
+        sc4 = [{"cfg": cfg4[i % len(cfg4)], "ops": fix_ops(cfg4[i % len(cfg4)], h)} for i, h in enumerate(hs4)]
+        by4, n4 = seqeng.run_and_judge(sc4, "bigbits", timeout=3000)
+        mine4, other4 = attribute(spec, sc4, by4)
+        report_bad(rep, sc4, mine4)
+        unattributed += len(other4)
+        rep.cov["evaluations"] += n4
+        rep.cov["histories_with_bit_sizes_21_to_24"] = len(sc4)
+        total += len(sc4)
     # 3. witnesses of repaired defects (must pass)
     ws = witnesses(pid)
     if ws:
